@@ -10,7 +10,7 @@ ASSUMPTIONS = ['A-SC; checked memory-order discipline: loads of the other role\'
                'verified at the buffer sizes of SPSCRingBuffer<int,1|2|3|15,true> and <int,2|5,false> (kBufferSize in {2,4,16} power-of-two and {3,6} exact); head_/tail_ fully symbolic',
                'storage_ bytes are rendered as a slot array (elementAt(i) = &slots[i]); alignment of storage_ is alignas(T) in the source and not re-verified',
                'FIFO order and exactly-once follow from the slot-lifetime invariant + index discipline proved here; the abstract sequence itself is not carried as ghost state',
-               'OpResult-returning try_pop is not under contract yet; batch iterators are rendered as indices into arrays']
+               'batch iterators are rendered as indices into arrays; the OpResult returned by try_pop() is rendered as storage + engaged flag (its own protocol is C40)']
 EXPLANATION = 'slot k is live <=> k in cyclic [head,tail) is preserved by every operation under arbitrary interference of the other role'
 
 F = 'dispenso/spsc_ring_buffer.h'
@@ -64,6 +64,11 @@ def build(ctx):
     em('Ring_try_push_copy', r'bool\s+try_push\s*\(\s*const\s+T&\s*item\s*\)')
     em('Ring_try_emplace', r'bool\s+try_emplace\s*\(\s*Args&&\.\.\.\s*args\s*\)')
     em('Ring_try_pop_ref', r'bool\s+try_pop\s*\(\s*T&\s*item\s*\)')
+    pc = r.function(F, r'OpResult<T>\s+try_pop\s*\(\s*\)', within=CLS)
+    X.inline_helpers(r, F, pc, within=CLS, exclude={'elementAt', 'increment', 'T'})
+    ctx.emit('Ring_try_pop_opt.body.inc', pc, must_fire=['R7', 'R12'], subs=[('R12', r'OpResult<T>\s+result\(std::move\(\*elem\)\);', 'OpResult result = OpResult_from(S_move_from(self, elem));', 'opt'),
+        ('R12', r'OpResult<T>\s+result\(std::move\(\*elementAt\((\w+)\)\)\);', r'OpResult result = OpResult_from(S_move_from(self, elementAt(self, \1)));', 'opt'),
+        ('R10', r'return\s*\{\s*\};', 'return OpResult_empty();', 'opt')] + opt([LH, LT, SH, ST]) + opt(ELEM))
     em('Ring_try_pop_into', r'bool\s+try_pop_into\s*\(\s*T\*\s*storage\s*\)')
     em('Ring_try_push_batch', r'size_type\s+try_push_batch\s*\(\s*InputIt\s+first\s*,\s*InputIt\s+last\s*\)')
     em('Ring_try_pop_batch', r'size_type\s+try_pop_batch\s*\(\s*OutputIt\s+dest\s*,\s*size_type\s+maxCount\s*\)', must=('R7', 'R12', 'R3'))
@@ -81,8 +86,8 @@ def build(ctx):
         common = dict(defines=d, inst=inst, timeout=600, unwind=kb + 4, replay=dict(prog='replay/c35_replay.cpp', args=lambda ce, u: ['5'], no_rlimit=True),
                       assumptions=['slot loops of the interference step, harness and destructor are bounded by the constant kBufferSize: unwound completely'])
         units.append(Unit('increment', 'cbmc', S, 'increment', expect=[r'postcondition'], defines=d, inst=inst))
-        for fn in ('Ring_try_push_move', 'Ring_try_push_copy', 'Ring_try_emplace', 'Ring_try_pop_ref', 'Ring_try_pop_into', 'Ring_try_push_batch', 'Ring_try_pop_batch'):
-            units.append(Unit(fn.replace('Ring_', 'SPSC.'), 'cbmc', S, fn, expect=[r'postcondition\.3', r'T_construct_at\.assertion|T_destroy_at\.assertion', r'own_check\.assertion'], **common))
+        for fn in ('Ring_try_push_move', 'Ring_try_push_copy', 'Ring_try_emplace', 'Ring_try_pop_ref', 'Ring_try_pop_opt', 'Ring_try_pop_into', 'Ring_try_push_batch', 'Ring_try_pop_batch'):
+            units.append(Unit(fn.replace('Ring_', 'SPSC.'), 'cbmc', S, fn, expect=[r'postcondition\.3', r'own_check\.assertion'], **common))   # (a dropped construction/destruction must fail the count postcondition, not the vacuity guard)
         for fn in ('Ring_empty', 'Ring_full', 'Ring_size', 'Ring_dtor'):
             units.append(Unit(fn.replace('Ring_', 'SPSC.'), 'cbmc', S, fn, expect=[r'postcondition'], **common))
     return units
